@@ -102,6 +102,19 @@ class Script:
     def _take(self):
         a = self.actions[self.pos]
         self.pos += 1
+        pre = a.get("pre")
+        if pre is not None:
+            # the program changes, IN PLACE and keeping its length, a container it has passed around before - and passes,
+            # returns or yields the same object again with this action
+            obj, content = pre
+            if isinstance(obj, list):
+                obj[:] = content
+            elif isinstance(obj, dict):
+                obj.clear()
+                obj.update(content)
+            elif isinstance(obj, set):
+                obj.clear()
+                obj.update(content)
         return a
 
     # ---- called by the fixture bodies --------------------------------------------------
